@@ -11,8 +11,8 @@ LEVEL = {
  'C05': ('`equiv` clauses (accept iff, value equality, consumed position) of every decoder from Flags::read up to Message::try_read_validate against the independent specification; unbounded in input length and AVP count.', 'DESIGN.md 3 C05'),
  'C06': ('`bytes` clause of every encoder against spec_enc_*, arbitrary writer and prefix, including the ControlMessage::write loop (unbounded).', 'DESIGN.md 3 C06'),
  'C07': ('Length clauses under the guard reading of assert!: get_length == |payload|, 10-bit AVP length exact and <= 1023, control Length exact and <= 65535; removing or weakening an assert fails the clause.', 'DESIGN.md 3 C07'),
- 'C08': ('`consumed` clauses (reader position after decode) and sub-reader isolation proved for every reader; suffix/concatenation lemmas over the specification.', 'DESIGN.md 3 C08'),
- 'C09': ('Every encoder proved `out == old(out) ++ spec_enc(v)` for arbitrary old(out); write_bytes_at call sites proved to lie inside the value being encoded; VecWriter primitives by Verus/Kani.', 'DESIGN.md 3 C09'),
+ 'C08': ('`consumed` clauses (reader position after decode) and sub-reader isolation proved for every reader; suffix/concatenation lemmas and the back-to-back decoding theorem for message sequences over the specification.', 'DESIGN.md 3 C08'),
+ 'C09': ('Every encoder proved `out == old(out) ++ spec_enc(v)` for arbitrary old(out); write_bytes_at call sites proved to lie inside the value being encoded; VecWriter primitives by Verus/Kani; concatenation theorem for message sequences over the specification.', 'DESIGN.md 3 C09'),
  'C10': ('Spec-level fixed-point lemma (decoded values are encodable; decode(encode(m)) == m up to Length; second encode identical), linked to the code by the C05 equiv and C06 bytes clauses.', 'DESIGN.md 3 C10'),
  'C11': ('hide/reveal proved against the RFC 4.3 construction with MD5 uninterpreted, unbounded in block count; spec-level inversion lemma decrypt(encrypt(p)) == p and reveal(hide(a)) == a.', 'DESIGN.md 3 C11'),
  'C12': ('The real hide body proved to produce encrypt(plain(...)) as RFC 2661 4.3 defines it, for any 16-octet hash; reveal proved equal to spec_reveal; H bit set by AVP::write for Hidden.', 'DESIGN.md 3 C12'),
@@ -31,7 +31,7 @@ for p in ('C14', 'C16', 'C18', 'C01', 'C02', 'C04', 'C06', 'C20'):
 TECH['C17'] = 'contract-style Kani harnesses, loop-free over the full domain (complete), on the real crate'
 TECH['C19'] = 'Verus closed-world rejection + generator frame scan (syntactic) + functional postconditions'
 
-NOTE = ('Trusted: rustc, Verus/Z3, Kani/CBMC, generator rules R1-R7/D2-D8; assumed std contracts and axioms listed in the evidence file '
+NOTE = ('Trusted: rustc, Verus/Z3, Kani/CBMC, generator rules R1-R12/D2-D8; assumed std contracts and axioms listed in the evidence file '
         '(from_utf8, String::as_bytes/len, to_owned, get_unchecked, unwrap_unchecked, R2/R6 wrappers, Vec len <= isize::MAX); md5::compute is a function '
         'of its input returning 16 octets; external_body functions carry contracts discharged by Kani where a harness is listed, bounded where stated.')
 
